@@ -7,9 +7,12 @@ q=[m['id'] for m in metas if caught(m,'quick')]
 t=[m['id'] for m in metas if not caught(m,'quick') and caught(m,'thorough')]
 n=[m['id'] for m in metas if not caught(m,'quick') and not caught(m,'thorough')]
 summary=("Summary: %d of %d changes are caught by at least one check at the quick tier (%s); %d more at the thorough tier (%s)%s. "
-         "The changes that need the thorough tier are those whose trigger is rare by construction - the authors measured 8 of 720 assertion "
-         "orders (C02-b, C05-b), 1 in 5000 random conjunctions (C30-c), a specific lemma-cache state of the array solver (C22-c) - the quick "
-         "tier samples a few thousand cases per property.\n\n" % (len(q),len(metas),', '.join(q),len(t),', '.join(t) or '-', ('; not caught by any recorded run: '+', '.join(n)) if n else ''))
+         "A hit counts only if the reported violation can come from the change (see the caveat below the table). The changes that need the "
+         "thorough tier, or escape both tiers, are those whose trigger is rare by construction - their authors measured 8 of 720 assertion orders "
+         "(C02-b / C05-b, the same edit of the difference-logic solver; about one order in two thousand on favourable graphs by my own brute-force "
+         "count), 1 in 5000 random conjunctions (C30-c), one particular shape of a decomposed Farkas combination under two of the five LRA "
+         "interpolation algorithms (C08-c), an integer, a real and an integer interface variable with equal values in that order (C02-c), a "
+         "specific lemma-cache state of the array solver (C22-c) - while the quick tier samples a few thousand cases per property.\n\n" % (len(q),len(metas),', '.join(q),len(t),', '.join(t) or '-', ('; not caught by any recorded run: '+', '.join(n)) if n else ''))
 p='/verif/DESIGN.md'; s=open(p).read()
 marker='SEEDED-TABLE-PLACEHOLDER'
 if marker in s:
